@@ -15,8 +15,10 @@ What is proved here (about the models in `Model/Diag.lean` and `Model/Pipeline.l
    API allows to break the iff are exhibited as witnesses (`warning_as_error_fails_silently`,
    `empty_emit_fails_silently`, `dropped_flag_succeeds_after_error`).
 2. spans: everything the parser glue builds from valid lexer token spans is valid
-   (`built_spans_valid`), the combinators do not hit their assertions on such spans, and rendering
-   panics exactly when a label's file is unknown (`render_panics_iff`), hence never for built spans.
+   (`built_spans_valid`), the combinators do not hit their assertions on such spans, rendering
+   panics exactly when a label's file is unknown (`render_panics_iff`), hence never for built
+   spans, and (since c4ddfe9) a diagnostic made through `primary` / `secondary` with a file-less span
+   (`Span::NULL`) renders: the span becomes a note (`null_span_renders`, `renderDiag_panics_iff`).
 3. progress: a program accepted by the type-checker model reaches no `panic` outcome in the
    const-variable evaluator and the const-simplification pass (`progress_partial`).
 
@@ -832,8 +834,10 @@ theorem empty_emit_fails_silently :
     (∃ t s, exec State.init [.emit .null [.error], .errOf] = some (.error t, s) ∧ s.log = []) :=
   ⟨⟨_, _, rfl, rfl⟩, ⟨_, _, rfl, rfl⟩, ⟨_, _, rfl, rfl⟩⟩
 
-/-- an `ErrorFlag` that is set and then goes out of scope without `into_result`
-(`src/formats/ecl/ecl_10.rs:196-265` as found): error rendered, exit status 0 -/
+/-- an `ErrorFlag` that is set and then goes out of scope without `into_result`: error rendered,
+exit status 0.  The API still allows it; the one instance found in the code
+(`src/formats/ecl/ecl_10.rs:196-265`, modern ECL) is repaired (b5d9cfe adds
+`errors.into_result(())?`). -/
 theorem dropped_flag_succeeds_after_error :
     ∃ s, exec State.init [.flagNew, .emit .root [.error], .flagSet, .drop, .okUnit] = some (.ok (), s) ∧
       hasErr s.log = true ∧ s.lost = 1 := ⟨_, rfl, by decide, rfl⟩
@@ -964,9 +968,67 @@ theorem built_spans_render (fs : Files) (toks : List Span) (ht : ∀ t ∈ toks,
     have := valid_known fs l (built_spans_valid fs toks ht l (hl l hm))
     rw [this] at hk; cases hk
 
-/-- `Span::NULL` (spans of generated code, of built-in mapfile entries) does not render -/
-theorem null_span_panics (fs : Files) : ∃ p, render fs [⟨none, 0, 0⟩] = .panic p :=
-  (render_panics_iff fs _).mpr ⟨⟨none, 0, 0⟩, by simp, rfl⟩
+/-! ### labels are made by `primary` / `secondary` (c4ddfe9): file-less spans become notes -/
+
+theorem ofSpans_go (d : DiagB) (spans : List Span) :
+    (spans.foldl DiagB.addLabel d).labels = d.labels ++ spans.filter (fun s => s.file.isSome) ∧
+    (spans.foldl DiagB.addLabel d).notes = d.notes + (spans.filter (fun s => s.file.isNone)).length := by
+  induction spans generalizing d with
+  | nil => simp
+  | cons s ss ih =>
+    obtain ⟨file, lo, hi⟩ := s
+    cases file with
+    | none =>
+      have := ih (DiagB.addLabel d ⟨none, lo, hi⟩)
+      simp only [List.foldl, DiagB.addLabel] at this ⊢
+      simp [this]; omega
+    | some f =>
+      have := ih (DiagB.addLabel d ⟨some f, lo, hi⟩)
+      simp only [List.foldl, DiagB.addLabel] at this ⊢
+      simp [this]
+
+/-- the labels of a built diagnostic are exactly the spans that have a file, in order; every other
+span is a note -/
+theorem ofSpans_labels (spans : List Span) :
+    (DiagB.ofSpans spans).labels = spans.filter (fun s => s.file.isSome) ∧
+    (DiagB.ofSpans spans).notes = (spans.filter (fun s => s.file.isNone)).length := by
+  have := ofSpans_go DiagB.empty spans
+  simpa [DiagB.ofSpans, DiagB.empty] using this
+
+/-- **A diagnostic built through `primary` / `secondary` fails to render exactly when one of its
+spans names a file id that the database does not know**; file-less spans (`Span::NULL`) never do. -/
+theorem renderDiag_panics_iff (fs : Files) (spans : List Span) :
+    (∃ p, renderDiag fs spans = .panic p) ↔ ∃ s ∈ spans, ∃ f, s.file = some f ∧ ¬ f < fs.length := by
+  unfold renderDiag
+  rw [render_panics_iff, (ofSpans_labels spans).1]
+  constructor
+  · rintro ⟨l, hm, hk⟩
+    simp only [List.mem_filter] at hm
+    obtain ⟨hm, hs⟩ := hm
+    cases hf : l.file with
+    | none => simp [hf] at hs
+    | some f => exact ⟨l, hm, f, hf, by simpa [Span.known, hf] using hk⟩
+  · rintro ⟨s, hm, f, hf, hlt⟩
+    exact ⟨s, by simp [List.mem_filter, hm, hf], by simp [Span.known, hf, hlt]⟩
+
+/-- **`Span::NULL` renders** (as a note): a diagnostic whose spans all are file-less or valid
+renders.  This replaces `null_span_panics`, which held of the code before c4ddfe9 (a raw label
+without file still panics in `render`, see `render_panics_iff`, but no public constructor makes
+one any more). -/
+theorem null_span_renders (fs : Files) : renderDiag fs [⟨none, 0, 0⟩] = .ok () := rfl
+
+theorem renderDiag_ok (fs : Files) (spans : List Span)
+    (h : ∀ s ∈ spans, s.file = none ∨ s.valid fs = true) : renderDiag fs spans = .ok () := by
+  cases hr : renderDiag fs spans with
+  | ok u => rfl
+  | err c => exact absurd hr (render_never_errs fs _ c)
+  | panic p =>
+    obtain ⟨s, hm, f, hf, hlt⟩ := (renderDiag_panics_iff fs spans).mp ⟨p, hr⟩
+    rcases h s hm with hn | hv
+    · rw [hf] at hn; cases hn
+    · have := valid_known fs s hv
+      simp [Span.known, hf] at this
+      exact absurd this hlt
 
 /-- non-vacuity: `int x = "あ";` (the string literal has multi-byte characters) -/
 def exSrc : List UInt8 := "ab \"あ\" c".toUTF8.data.toList
@@ -980,6 +1042,10 @@ example : Built exFiles exToks ⟨some 0, 0, 8⟩ :=
 example : render exFiles [⟨some 0, 0, 8⟩, ⟨some 0, 10, 10⟩] = .ok () := by decide
 example : render exFiles [⟨some 0, 0, 8⟩, ⟨some 1, 0, 0⟩] = .panic "Internal compiler error while formatting error" := by
   decide
+-- "ambiguous value for enum const": first span of the built-in definition (no file), second in the mapfile
+example : DiagB.ofSpans [⟨none, 0, 0⟩, ⟨some 0, 3, 8⟩] = ⟨[⟨some 0, 3, 8⟩], 1⟩ := by decide
+example : renderDiag exFiles [⟨none, 0, 0⟩, ⟨some 0, 3, 8⟩] = .ok () := by decide
+example : renderDiag exFiles [⟨some 7, 0, 0⟩] = .panic "Internal compiler error while formatting error" := by decide
 
 section Progress
 open TruthModel.Types TruthModel.Pipeline TruthModel.C09
